@@ -349,7 +349,7 @@ def gen_c01(r, knobs=None):
                 if swarm['runfault'] and r.random() < 0.25:
                     insts = b.insts(cid)
                     ups = [name] + sorted(_upstream_names(insts[name]))
-                    b.op(op='armrun', slug=insts[r.choice(ups)].slug, kind=r.choice(RUN_FAULTS[:4]), at=0)
+                    b.op(op='armrun', slug=insts[r.choice(ups)].slug, kind=r.choice(RUN_FAULTS), at=r.choice([0, 1, 3]))
                     b.req(cid, name)
                     b.op(op='disarm')
                 b.req(cid, name)
@@ -688,3 +688,8 @@ def gen_c20(r, knobs=None):
         b.req(c1, n)
     b.op(op='ls', store='src', expect='unchanged', what='source')
     return b.scenario()
+
+
+def gen_c02zone(r, knobs=None):
+    """known-finding zone F4: parameter objects that store a python set (AutoParameterObject repr follows set iteration order)"""
+    return gen_c02(r, {'families': ['objset', 'objset', 'int', 'str'], 'n_pipes': (1, 2), 'max_params': 2})
